@@ -41,6 +41,36 @@ def run(ctx):
             hist[k] = hist.get(k, 0) + v
         if sample and len(samples) < 2:
             samples.append(sample)
+    # refusals on files the library did not write: tolerated deviations (CLSID/times on streams,
+    # unterminated names, start/size on storages, ...) and synthesised foreign layouts keep entries in
+    # a non-canonical form, so a refused call that rewrites an entry changes bytes
+    from . import rawlib as R
+    import re as _re2, os as _os, shutil as _sh
+    try:
+        snapdir, devdir, laydir = R.scratch(ctx, "snaps"), R.scratch(ctx, "dev"), R.scratch(ctx, "lay")
+        bases = R.snapshots(ctx, snapdir, ctx.seed, 25 if quick else 200, max_ops=30)
+        blist, dlist, rlist = ctx.path("rbases.list"), ctx.path("rdev.list"), ctx.path("refusal.bases")
+        R.write_list(blist, bases[: 40 if quick else 600])
+        C.harness(["deviate", "--seed", ctx.seed, "--bases", blist, "--outdir", devdir, "--combos", 2, "--list", dlist])
+        C.harness(["layout", "--seed", ctx.seed + 51, "--count", 40 if quick else 600, "--outdir", laydir])
+        files = (open(dlist).read().split() if _os.path.exists(dlist) else []) + sorted(_os.path.join(laydir, f) for f in _os.listdir(laydir) if f.endswith(".cfb"))
+        R.write_list(rlist, files)
+        rc, out = C.harness(["damage", "--refusals", "--seed", ctx.seed, "--bases", rlist, "--per-image", 12], timeout=3000)
+        rstat, _, roracle = C.parse_stats(out)
+        for msg in roracle:
+            m = _re2.search(r"refusal on (\S+): (\w+)", msg)
+            sig = "foreign-refusal:" + (m.group(2) if m else "?") + (":panic" if "panicked" in msg else ":bytes-changed")
+            keep = None
+            if m and _os.path.exists(m.group(1)):
+                keep = _os.path.join(ctx.replaydir, sig.replace(":", "_") + ".cfb")
+                _sh.copy(m.group(1), keep)
+            C.add_violation(ctx, sig, _re2.sub(r"[0-9a-f]{60,}", "<bytes>", msg)[:400],
+                            "# C10 violation on a file the library did not write (image kept as %s): open it permissively and make the call named below\n# %s\n" % (keep, msg[:1500]))
+        total_ops += rstat.get("refusal_calls", 0)
+        hist["foreign:images"] = rstat.get("refusal_images", 0)
+        hist["foreign:refused"] = rstat.get("refused", 0)
+    finally:
+        R.cleanup(ctx)
     # refused seeks: part of the handle campaign (C06 machinery): position and window unchanged
     ops, imp, mod = ctx.path("h.ops"), ctx.path("h.impl"), ctx.path("h.model")
     rc, out = C.harness(["handle", "--seed", ctx.seed, "--count", 200 if quick else 4000, "--max-ops", 60, "--ops", ops, "--impl", imp])
@@ -70,7 +100,7 @@ def run(ctx):
         "evaluations": total_ops,
         "distinct_nontrivial": distinct,
         "refused_calls_checked": refusals,
-        "rule": "API histories with ~40% of the calls aimed at refusals of every class (missing parent, stream as parent, wrong type, existing name, non-empty storage, root removal, escaping path, invalid name) at random points; after every refused call the backing bytes are compared with the bytes before it (oracle) and model and implementation are compared at levels O and D; refused seeks through handle scripts (O+H). distinct = distinct history hashes",
+        "rule": "API histories with ~40% of the calls aimed at refusals of every class (missing parent, stream as parent, wrong type, existing name, non-empty storage, root removal, escaping path, invalid name) at random points; after every refused call the backing bytes are compared with the bytes before it (oracle) and model and implementation are compared at levels O and D; refused seeks through handle scripts (O+H); refusals of 16 kinds aimed at the entries of deviated images (every documented tolerated deviation) and of synthesised foreign layouts, bytes compared around each. distinct = distinct history hashes",
         "samples": samples,
         "traces_validated_against_impl": total_h,
         "histogram": hist,
